@@ -5,6 +5,7 @@ import families
 import meta
 
 LEVEL_NOTE = [
+    "theorem C18.rename_token (token level): two identifiers of the same length, neither a keyword, go from the same lexer state to the same state through the whole sub-lexer chain; the IDENTIFIER tokens differ only in their spelling",
     "theorems C18.ident_body / rename_same_length / keyword_names (lexer half): the identifier sub-lexer's result depends on the identifier's length and on membership in the keyword table only. Tie: `lex` correspondence + the renaming oracle below on the real pipeline",
 ]
 PARTIAL = [
